@@ -229,6 +229,9 @@ Not decided: that the (min, max) handed to the selector is the true hull of the 
         "per_visible_range_constraints yields the effective bounds (C04's subject)".into(),
     ];
     ctx.rule("region-exhaustive abstract evaluation of the selectors' syntax trees; exhaustive enum tables");
+    // the hull handed to the selectors, for chains of set operators as the lexer nests them (shared with C04.prec): a hull that
+    // leaves out permitted values selects a type that cannot hold them (`a INTEGER (1..5 ^ 3..10 | 300)` as u8)
+    crate::rules::c04::precedence(m, ctx, "C06.prec", false);
     // the extension marker of a constraint decides between a fixed-width type and Integer: it must be read whatever the
     // layout of the constraint (the token-boundary analysis lives with C13; its reports about the constraint lexer are taken over)
     borrow_where(ctx, "C13", "C13.boundary", "C06.lexer", "lexer::constraint", &mut |sub| crate::rules::c13::run(m, sub));
